@@ -44,6 +44,8 @@ def gen_cases(tier, seed, salt):
                 "ncell": ncell,
                 "delta_form": str(sub.choice(["list", "scalar", "array", "list"])),
                 "shortfall": float(sub.choice([-0.5, -0.1, 1e-4, 1e-3, 1e-2, 0.1, 0.5, 1.0, 3.0])),
+                "history": bool(sub.random() < 0.3) and mode == "explicit",
+                "spec2": S.gen_spec(sub, structure=st, fams=["weibull", "lognormal", "lnnf", "expweib", "gengamma", "normal"], allow_hostile=True) if mode == "explicit" else None,
                 "sub": int(sub.integers(1 << 31)),
                 "cost": float(np.prod(ncell)) / 2e4 + 0.5,
             }
@@ -178,6 +180,36 @@ def run(case, ctx, which):
         _c02(ctx, spec, alpha, con, o, cell_prob, centres, deltas_used, warned, info)
     else:
         _c15(ctx, con, o, centres, warned, info, d)
+    if case.get("history") and case.get("spec2") is not None and kw:
+        # call history: the SAME model object gets other parameters (what a re-fit does) and a contour is computed on
+        # the SAME grid (and again with another alpha): it must be the contour of the current parameters
+        spec2 = case["spec2"]
+        donor = S.build_virocon(spec2)
+        for i_ in range(d):
+            model.distributions[i_] = donor.distributions[i_]
+        ctx.cls("history", "parameters-changed-same-grid")
+        for a2 in (alpha, min(0.3, alpha * 3)):
+            hdcmon.reset()
+            hdcmon.JUDGE_SORTER[0] = which == "C15"
+            with warnings.catch_warnings(record=True) as rec2:
+                warnings.simplefilter("always")
+                try:
+                    con2 = HighestDensityContour(model, a2, **kw)
+                except IndexError:
+                    ctx.count("hdc.index-error-coarse-grid")
+                    return
+            warned2 = any(issubclass(w.category, RuntimeWarning) and "1-alpha could not be reached" in str(w.message) for w in rec2)
+            obs2 = hdcmon.OBS.get("cumsum", [])
+            if not obs2:
+                ctx.inconcl("cumsum_biggest_until was not observed in the history step")
+                return
+            o2 = obs2[-1]
+            centres2 = [np.asarray(c_, float) for c_ in con2.cell_center_coordinates]
+            info2 = {"alpha": a2, "grid": [int(c_.size) for c_ in centres2], "mode": "history: same object, other parameters, same grid", "spec": spec2}
+            if which == "C02":
+                _c02(ctx, spec2, a2, con2, o2, o2["cell_prob"], centres2, deltas_used, warned2, info2)
+            else:
+                _c15(ctx, con2, o2, centres2, warned2, info2, d)
 
 
 # ----------------------------------------------------------------------
